@@ -23,7 +23,8 @@ def sh(cmd, cwd, timeout=1800, env=None):
 def main():
     src, name = sys.argv[1], sys.argv[2]
     props, tier, scale = None, "quick", None
-    a = sys.argv[3:]
+    inplace = "--inplace" in sys.argv
+    a = [x for x in sys.argv[3:] if x != "--inplace"]
     while a:
         if a[0] == "--props":
             props = a[1].split(",")
@@ -39,7 +40,7 @@ def main():
     demo = os.path.join(src, "demo_test.go")
     test_name = meta.get("demo_test_name", "")
     out = {"confirmed": {}}
-    if subprocess.run("git -C /repo status --porcelain", shell=True, stdout=subprocess.PIPE, text=True).stdout.strip():
+    if inplace and subprocess.run("git -C /repo status --porcelain", shell=True, stdout=subprocess.PIPE, text=True).stdout.strip():
         print("/repo is not clean")
         return 2
 
@@ -59,6 +60,9 @@ def main():
             out["confirmed"]["applies"] = False
             return 2
         rcb, ob = sh("go build ./... && go test -vet=off -count=1 ./...", wt)
+        if rcb != 0:
+            # the unchanged suite has a flaky test (tests/edge_test.go TestEdgeNeighbor on a random Yule tree): one retry
+            rcb, ob = sh("go test -vet=off -count=1 ./...", wt)
         out["confirmed"]["suite_with_patch"] = "pass" if rcb == 0 else "FAIL"
         if rcb != 0:
             print(ob[-3000:])
@@ -73,13 +77,31 @@ def main():
         out["confirmed"]["demo_with_patch"] = "fail" if rc1 != 0 else "PASS"
         out["confirmed"]["demo_cmd"] = demo_cmd
         out["confirmed"]["demo_failure_excerpt"] = "\n".join([l for l in o1.splitlines() if "---" in l or "Error" in l or "seeded_demo" in l][:6])
+        print(json.dumps(out["confirmed"], indent=1))
+        ok = out["confirmed"].get("demo_without_patch") == "pass" and out["confirmed"].get("suite_with_patch") == "pass" and out["confirmed"].get("demo_with_patch") == "fail"
+        results = {}
+        os.remove(os.path.join(wt, "tests", "seeded_demo_test.go"))
+        if ok and not inplace:
+            # run the checks against the patched scratch worktree (development shortcut: several seeds in parallel)
+            scratch = tempfile.mkdtemp(prefix="vseed-", dir="/tmp")
+            try:
+                for pid in props:
+                    env = dict(ENV, VERIF_REPO=wt, VERIF_REPLAY_DIR=os.path.join(scratch, "replays"), VERIF_EVIDENCE_DIR=os.path.join(scratch, "evidence"))
+                    if scale:
+                        env["VERIF_SCALE"] = scale
+                        env["VERIF_FUZZ_SCALE"] = scale
+                    t0 = time.time()
+                    rc, o = sh(["./verif.sh", "run", pid, tier], ROOT, timeout=7200, env=env)
+                    v = re.findall(r"^VIOLATION .*\n  (.*)$", o, re.M)
+                    results[pid] = {"tier": tier, "exit": rc, "seconds": round(time.time() - t0, 1), "violations": [x[:300] for x in v[:4]], "against": "patched scratch worktree"}
+                    print(pid, tier, "exit", rc, "in %.0fs" % (time.time() - t0), (v[0][:200] if v else o.strip().splitlines()[-1][:200]))
+            finally:
+                shutil.rmtree(scratch, ignore_errors=True)
+                shutil.rmtree(os.path.join(ROOT, ".work", "alt", __import__("hashlib").sha1(wt.encode()).hexdigest()[:12]), ignore_errors=True)
     finally:
         sh("git -C /repo worktree remove --force %s" % wt, "/")
         shutil.rmtree(wt, ignore_errors=True)
-    print(json.dumps(out["confirmed"], indent=1))
-    ok = out["confirmed"].get("demo_without_patch") == "pass" and out["confirmed"].get("suite_with_patch") == "pass" and out["confirmed"].get("demo_with_patch") == "fail"
-    results = {}
-    if ok:
+    if ok and inplace:
         rc, o = sh("git -C /repo apply %s" % patch, "/")
         if rc != 0:
             print("patch does not apply to /repo: " + o)
@@ -94,7 +116,7 @@ def main():
                 t0 = time.time()
                 rc, o = sh(["./verif.sh", "run", pid, tier], ROOT, timeout=7200, env=env)
                 v = re.findall(r"^VIOLATION .*\n  (.*)$", o, re.M)
-                results[pid] = {"tier": tier, "exit": rc, "seconds": round(time.time() - t0, 1), "violations": [x[:300] for x in v[:4]]}
+                results[pid] = {"tier": tier, "exit": rc, "seconds": round(time.time() - t0, 1), "violations": [x[:300] for x in v[:4]], "against": "/repo with the patch applied (undone afterwards)"}
                 print(pid, tier, "exit", rc, "in %.0fs" % (time.time() - t0), (v[0][:200] if v else o.strip().splitlines()[-1][:200]))
         finally:
             sh("git -C /repo checkout -- .", "/")
